@@ -39,6 +39,13 @@ def gen_world(rng, profile=None):
     cfg = cfg._replace(sim=cfg.sim._replace(request_cancel_time_seconds=cancel, timestep_duration_seconds=delta),
                        dispatcher=cfg.dispatcher._replace(max_search_radius_km=1.0))   # 100 km default => k_ring(760) ring searches when no valid station exists
     sched_defs = {'s1': rng.choice([(8 * 3600, 17 * 3600), (22 * 3600, 6 * 3600), (0, 0), (3600, 3600 + 2 * delta)])}
+    # shifts touching step boundaries: a shift (often wrapping past midnight) whose END is the start time of one of the first
+    # steps of the case — drawn from a stream of its own
+    rng2 = random.Random(f'shift-boundary|{t0}|{delta}|{cancel}')
+    if rng2.random() < 0.3:
+        end = (t0 + rng2.randint(0, 3) * delta) % 86400
+        start = (end + rng2.choice([3600, 7200, 40000, 86400 - 2 * delta])) % 86400
+        sched_defs = {'s1': (start, end)}
     def mk_sched(a, b):
         from nrel.hive.util.time_helpers import time_in_range
         import datetime as _dt
